@@ -97,6 +97,18 @@ Definition live (ops : list (nat * pt)) (x : pt) : Prop := exists w p, In (w, p)
 Definition cache_closed (st : lstate) : Prop :=
   forall i q, lookup i (l_cache st) = Some q ->
   forall a k, In a (nodes q) -> pt_id a = Some k -> lookup k (l_cache st) = Some a.
-(* object identities handed out so far are below the allocation counter *)
-Definition cache_fresh (st : lstate) : Prop :=
-  forall i q a, lookup i (l_cache st) = Some q -> In a (nodes q) -> (pt_oid a < l_next st)%N.
+
+(* ---- tightness of the guard of finding int_channel_key (round 2) -------------------------------------------------- *)
+Definition cs_keys {A} (m : list (chan * A)) : bool := forallb (fun ca => negb (is_ci (fst ca))) m.
+(* all keys of the object's own dicts are strings *)
+Definition own_cs (p : pt) : bool :=
+  match p with
+  | PTable _ e _ _ => cs_keys e
+  | PConst _ _ _ a _ => cs_keys a
+  | PMap _ _ _ _ cm _ => cs_keys cm
+  | PPar _ _ o => cs_keys o
+  | PArith _ _ (SMap m) _ _ => cs_keys m
+  | PAbs _ _ _ _ (Some m) _ => cs_keys m
+  | _ => true
+  end.
+
